@@ -59,6 +59,24 @@ class PConn:
     def execute(self, sql, *a):
         return self.cursor().execute(sql, *a)
 
+    def executemany(self, sql, *a):
+        return self.cursor().executemany(sql, *a)
+
+    def rollback(self):
+        self._proxy.event("rollback")
+        return self._real.rollback()
+
+    # `with conn:` -- sqlite3 semantics: commit on success, roll back on an exception, never close
+    def __enter__(self):
+        return self
+
+    def __exit__(self, et, ev, tb):
+        if et is None:
+            self.commit()
+        else:
+            self.rollback()
+        return False
+
     def close(self):
         return self._real.close()
 
@@ -75,6 +93,17 @@ class PCursor:
         self._proxy.event("execute:before", sql)
         try:
             self._real.execute(sql, *a)
+        except sqlite3.OperationalError:
+            with self._proxy.lock:
+                self._proxy.locked_errors += 1
+            raise
+        self._proxy.event("execute:after", sql)
+        return self
+
+    def executemany(self, sql, *a):
+        self._proxy.event("execute:before", sql)
+        try:
+            self._real.executemany(sql, *a)
         except sqlite3.OperationalError:
             with self._proxy.lock:
                 self._proxy.locked_errors += 1
